@@ -1,3 +1,5 @@
+use std::panic::{catch_unwind, AssertUnwindSafe};
+
 use bgpfu::RpslEvaluator;
 use ip::traits::PrefixSet;
 
@@ -41,18 +43,31 @@ impl Evaluate for Candidate {
                 tracing::error!("not evaluating malformed filter expression '{raw}'");
                 None
             }
-            FilterExpr::Parsed(filter_expr) => evaluator
-                .evaluate(filter_expr.clone())
-                .map_err(|err| {
-                    tracing::error!(
-                        "failed to evaluate filter expression {filter_expr}: {err:#}",
-                    );
-                })
-                .map(|set| {
-                    let (ipv4, ipv6) = set.as_partitions();
-                    (ipv4.ranges().collect(), ipv6.ranges().collect())
-                })
-                .ok(),
+            // The evaluation of some syntactically valid expressions panics (`todo!()` in the
+            // `rpsl` crate for AS-path regexps and attribute matches).  Contain that to this
+            // candidate: the evaluator's connection is never held across such a panic.
+            FilterExpr::Parsed(filter_expr) => {
+                catch_unwind(AssertUnwindSafe(|| evaluator.evaluate(filter_expr.clone())))
+                    .map_err(|_| {
+                        tracing::error!(
+                            "evaluation of filter expression {filter_expr} panicked",
+                        );
+                    })
+                    .ok()
+                    .and_then(|result| {
+                        result
+                            .map_err(|err| {
+                                tracing::error!(
+                                    "failed to evaluate filter expression {filter_expr}: {err:#}",
+                                );
+                            })
+                            .map(|set| {
+                                let (ipv4, ipv6) = set.as_partitions();
+                                (ipv4.ranges().collect(), ipv6.ranges().collect())
+                            })
+                            .ok()
+                    })
+            }
         };
         Evaluated {
             filter_expr: self.filter_expr,
